@@ -932,6 +932,17 @@ func (g *GoFakeS3) putMultipartUploadPart(bucket, object string, uploadID Upload
 
 	defer r.Body.Close()
 	var rdr io.Reader = r.Body
+	partSize := r.ContentLength
+
+	// A part can be sent with the same chunked framing as a whole object; what
+	// is stored is the payload, and its length is the decoded one:
+	if r.Header.Get("X-Amz-Content-Sha256") == "STREAMING-AWS4-HMAC-SHA256-PAYLOAD" {
+		rdr = newChunkedReader(r.Body)
+		partSize, err = strconv.ParseInt(r.Header.Get("X-Amz-Decoded-Content-Length"), 10, 64)
+		if err != nil || partSize <= 0 {
+			return ErrMissingContentLength
+		}
+	}
 
 	if g.integrityCheck {
 		md5Base64 := r.Header.Get("Content-MD5")
@@ -948,7 +959,7 @@ func (g *GoFakeS3) putMultipartUploadPart(bucket, object string, uploadID Upload
 		}
 	}
 
-	etag, err := g.uploader.UploadPart(bucket, object, uploadID, int(partNumber), r.ContentLength, rdr)
+	etag, err := g.uploader.UploadPart(bucket, object, uploadID, int(partNumber), partSize, rdr)
 	if err != nil {
 		return err
 	}
